@@ -20,6 +20,7 @@ type Clause struct {
 	Expr ast.Expr
 	Src  string   // file:line
 	Cond ast.Expr // modifies ... when <cond>
+	Props []string // [C15 C01] prefix: the clause is an obligation of these properties only
 }
 
 type LoopSpec struct {
@@ -59,6 +60,7 @@ type Contract struct {
 	NoFrame     bool
 	Cases       []*Clause // case split: the function is verified once under each case assumption
 	Witnesses   []*Clause // candidate witnesses (over locals) for exists() in postconditions
+	Volatile    []string  // field suffixes (e.g. ".state.v") that other goroutines may write at any time
 	WrapsSigned bool      // signed arithmetic of this function wraps by design (no overflow obligations)
 	IntOnly     bool      // use the contract only from int-mode callers; bv-mode callers inline the body
 }
@@ -120,7 +122,7 @@ func newContractDB() *ContractDB {
 	return &ContractDB{Funcs: map[string]*Contract{}, Specs: map[string]*SpecFunc{}, Lemmas: map[string]*Lemma{}, Consts: map[string]string{}, Ghosts: map[string]string{}}
 }
 
-var keywordRe = regexp.MustCompile(`^(package|axiom|func|requires|ensures|modifies|mode|loop|invariant|decreases|hint|unfold|use|induct|may_panic|trusted|abstracts|inline|intonly|wraps_signed|witness|cases|property|spec|lemma|struct|global|ghost|noframe|const)\b`)
+var keywordRe = regexp.MustCompile(`^(package|axiom|func|requires|ensures|modifies|mode|loop|invariant|decreases|hint|unfold|use|induct|may_panic|trusted|abstracts|inline|intonly|wraps_signed|volatile|witness|cases|property|spec|lemma|struct|global|ghost|noframe|const)\b`)
 
 // stripComment removes a trailing `// ...` that is outside string literals
 func stripComment(s string) string {
@@ -199,6 +201,29 @@ func splitKeyword(s string) (string, string) {
 }
 
 func parseClause(text, src string) (*Clause, error) {
+	var props []string
+	if strings.HasPrefix(text, "[") {
+		if i := strings.Index(text, "]"); i > 0 {
+			ok := true
+			for _, f := range strings.Fields(text[1:i]) {
+				if len(f) < 3 || f[0] != 'C' {
+					ok = false
+				}
+			}
+			if ok {
+				props = strings.Fields(text[1:i])
+				text = strings.TrimSpace(text[i+1:])
+			}
+		}
+	}
+	if props != nil {
+		c, err := parseClause(text, src)
+		if err != nil {
+			return nil, err
+		}
+		c.Props = props
+		return c, nil
+	}
 	rw := rewriteImplies(text)
 	x, err := parser.ParseExpr(rw)
 	if err != nil {
@@ -625,6 +650,12 @@ func (db *ContractDB) LoadFile(path, pkgPath string, trusted bool) error {
 				cur.IntOnly = true
 			case "wraps_signed":
 				cur.WrapsSigned = true
+			case "volatile":
+				for _, f := range strings.Split(rest, ",") {
+					if f = strings.TrimSpace(f); f != "" {
+						cur.Volatile = append(cur.Volatile, f)
+					}
+				}
 			case "cases":
 				for _, tx := range splitTop(rest, "|||") {
 					cl, err := parseClause(strings.TrimSpace(tx), st.src)
